@@ -43,6 +43,15 @@ CLAIMS = {
  "C05": dict(technique="TLA+ Concurrent.tla (N request processes over shared read-only state + once-guarded caches) model-checked by TLC over all interleavings; TLC schedules forced on the real Flame through blocking gates; responses validated by TLC (ConcurrentTrace.tla); free-running rounds observed by the Go race detector", ref="4 C05",
    note="N <= 3 in the model; gates at three points per request (before routing, middleware, route handler). The no-data-race clause is observed by the Go race detector on the driven executions only (sound for those, not exhaustive over schedules). Trusted: TLC, Go race detector.",
    text="TLC checks serial equivalence, isolation and read-only-after-setup over every interleaving of the model; every distinct gate schedule is replayed on the real code and each response is judged by TLC against the serial outcome; race-detector rounds with fresh instances (so lazy caches are rendered concurrently) and 8-64 goroutines cover the data-race clause as far as a dynamic detector can."),
+ "C16": dict(technique="TLA+ Static.tla (code-shaped decision procedure) vs StaticP.tla (declarative outcome over a fixed directory tree) model-checked by TLC over all request paths; paths requested from the real Static middleware over a scratch tree; outcomes validated by TLC (StaticTrace.tla)", ref="4 C16",
+   note="Bounded: paths <= 4-5 segments over an 11-name alphabet exhaustively; hostile byte segments randomly. No symlinks / case folding. Trusted: TLC, net/http file serving, the OS file system.",
+   text="TLC checks for every path, method and prefix setting that the decision procedure yields the declarative outcome and never a file outside the root; the real middleware is run on the same paths (prefix spelled four ways, option toggles) and kind, content, Location, written and next-handler-ran are judged by TLC."),
+ "C17": dict(technique="TLA+ Render.tla / RenderP.tla decision table checked by TLC; every cell rendered on a real Flame with random values; status / headers / ordering and the logged decode-back facts validated by TLC (RenderTrace.tla)", ref="4 C17",
+   note="Encode/decode fidelity is observed by the harness with encoding/json / encoding/xml and enters the trace as logged facts (roundtrip, body_eq_std) that the specification requires - the weakest use of the technique in the suite (DESIGN.md section 9).",
+   text="The table (format x status x charset x indent x position relative to the Renderer middleware) is checked by TLC and every cell executed with random values; TLC validates the exact status, Content-Type (also at the moment the status was sent), that Render is injectable exactly after the middleware, and requires the logged round-trip facts."),
+ "C18": dict(technique="TLA+ Accessors.tla / AccessorsP.tla decision table checked by TLC; every cell and random byte values exercised on real request contexts; results validated by TLC against the rule with strconv/net-url conversions as logged oracle (AccessorsTrace.tla)", ref="4 C18",
+   note="Conversions and the cookie byte round trip are computed/observed by the harness (strconv, net/url, net/http cookie jar path) and compared for equality by TLC. Out-of-range numerals: either zero or the clamped value is tolerated.",
+   text="TLC checks the branch structure of every accessor against the single presence/default rule over the whole table; real accessors are called with several values per class and with random bytes / huge numbers, cookies travel SetCookie -> Set-Cookie -> client -> Cookie -> Cookie(); TLC judges every result."),
  "C13": dict(
    technique="TLA+ spec RW.tla model-checked by TLC (layer I |= layer P, all op sequences to the bound); TLC-generated behaviours replayed on NewResponseWriter; recorded traces validated by TLC against RWTrace.tla",
    text="TLC checks exhaustively (all operation sequences up to depth 4 quick / 6 thorough, 3 methods, short writes) that the implementation-shaped model satisfies the five clauses of C13; every explored behaviour is executed on the real NewResponseWriter over a spy and the recorded step-by-step observations (Status/Size/Written + everything that reached the underlying writer) are validated by TLC against the property layer, as are random histories of up to 50 operations. Right level: the object is a small state machine, so bounded-exhaustive model checking plus trace conformance covers every transition combination.",
